@@ -361,3 +361,309 @@ Proof.
   eapply adv_trans; [apply (adv_addPos s (zlen (firstn n a) - 1)); lia|].
   eapply skipDollarQuote_loop_adv; eauto.
 Qed.
+
+(** ** list utilities *)
+Lemma skipn_app_l {A} (a b : list A) : skipn (length a) (a ++ b) = b.
+Proof. rewrite skipn_app, skipn_all, Nat.sub_diag. reflexivity. Qed.
+Lemma firstn_app_l {A} (a b : list A) : firstn (length a) (a ++ b) = a.
+Proof. rewrite firstn_app, firstn_all, Nat.sub_diag, firstn_O, app_nil_r. reflexivity. Qed.
+Lemma to_nat_zlen (a : bytes) : Z.to_nat (zlen a) = length a.
+Proof. unfold zlen. lia. Qed.
+Lemma skipn_firstn_mid (l a b c : bytes) p q :
+  l = a ++ b ++ c -> zlen a = p -> zlen b = q - p ->
+  skipn (Z.to_nat p) (firstn (Z.to_nat q) l) = b.
+Proof.
+  intros -> Hp Hq. assert (Z.to_nat q = length (a ++ b)) as ->.
+  { rewrite app_length. unfold zlen in *. lia. }
+  rewrite app_assoc, firstn_app_l. rewrite <- Hp, to_nat_zlen. apply skipn_app_l.
+Qed.
+Lemma skipn_to_nat_add (l : bytes) p k : 0 <= p -> 0 <= k ->
+  skipn (Z.to_nat (p + k)) l = skipn (Z.to_nat k) (skipn (Z.to_nat p) l).
+Proof. intros Hp Hk. rewrite Z2Nat.inj_add by lia. apply skipn_add. Qed.
+Lemma skipn_all_z (l : bytes) p : zlen l <= p -> skipn (Z.to_nat p) l = [].
+Proof. intros H. apply skipn_all2. unfold zlen in H. lia. Qed.
+
+(** ** the loop that reads to the end of the line *)
+Definition EolSeg (seg rest : bytes) : Prop :=
+  (exists arg, seg = arg ++ [10%N] /\ ~ In 10%N arg) \/ (~ In 10%N seg /\ rest = []).
+
+Lemma to_eol_loop_spec f : forall s r s',
+  to_eol_loop f s r = Ok s' -> 0 <= pos s -> (exists c, r = Some c /\ c <> 10%N) ->
+  exists seg, skipn (Z.to_nat (pos s)) (input s) = seg ++ skipn (Z.to_nat (pos s')) (input s) /\
+              EolSeg seg (skipn (Z.to_nat (pos s')) (input s)) /\ zlen seg = pos s' - pos s /\ adv s s'.
+Proof.
+  induction f as [|f IH]; intros s r s' H Hp (c & -> & Hc); simpl in H; [discriminate|].
+  apply N.eqb_neq in Hc. rewrite Hc in H. inv_bind H. destruct a as [r1 s1]. simpl in H.
+  destruct r1 as [c1|].
+  - pose proof (next_adv _ _ _ Ha) as A1.
+    apply next_some in Ha as (rest & w & H1 & H2 & H3 & -> & H4).
+    destruct (decode_rune_spec _ _ _ H3 H2) as (Hw & Hascii & Hnl).
+    apply slice_from_ok in H1 as [_ Hrest].
+    assert (rest = firstn (Z.to_nat w) rest ++ skipn (Z.to_nat (pos s + w)) (input s)) as Hsplit.
+    { rewrite skipn_to_nat_add by lia. rewrite <- Hrest. symmetry; apply firstn_skipn. }
+    assert (zlen (firstn (Z.to_nat w) rest) = w) as Hlw by (apply zlen_firstn; lia).
+    destruct (N.eqb c1 10) eqn:E10.
+    + apply N.eqb_eq in E10. subst c1. destruct f; simpl in H; [discriminate|]. inversion H; subst s'. clear H.
+      destruct (Hascii ltac:(lia)) as [-> [t Ht]].
+      exists [10%N]. simpl pos. rewrite <- Hrest. split; [|split; [|split]].
+      * rewrite Hsplit at 1. rewrite Ht. reflexivity.
+      * left. exists []. split; [reflexivity|intros []].
+      * unfold zlen; simpl; lia.
+      * exact A1.
+    + apply N.eqb_neq in E10.
+      destruct (IH _ _ _ H ltac:(simpl; lia) ltac:(eauto)) as (seg & S1 & S2 & S3 & S4).
+      simpl pos in *. simpl input in *.
+      exists (firstn (Z.to_nat w) rest ++ seg). split; [|split; [|split]].
+      * rewrite <- Hrest, Hsplit at 1. rewrite S1, app_assoc. reflexivity.
+      * destruct S2 as [(arg & -> & Harg)|[Hseg Hr]].
+        -- left. exists (firstn (Z.to_nat w) rest ++ arg). rewrite app_assoc. split; [reflexivity|].
+           intros Hin. apply in_app_or in Hin as [Hin|Hin]; [apply (Hnl E10 Hin)|apply (Harg Hin)].
+        -- right. split; [|exact Hr]. intros Hin. apply in_app_or in Hin as [Hin|Hin]; [apply (Hnl E10 Hin)|apply (Hseg Hin)].
+      * rewrite zlen_app. lia.
+      * eapply adv_trans; [exact A1|exact S4].
+  - apply next_none in Ha as [-> Hlen]. destruct f; simpl in H; [discriminate|]. inversion H; subst s'.
+    exists []. rewrite (skipn_all_z _ _ Hlen).
+    split; [reflexivity|split; [right; split; [intros []|reflexivity]|split; [unfold zlen; simpl; lia|apply adv_refl]]].
+Qed.
+
+(** * Specification: gaps, raw statements, losslessness *)
+Section Spec.
+Variable o : opts.
+
+(** a terminated comment: opener, body, terminator — the terminator does not occur earlier. *)
+Definition CommentSeg (c : bytes) : Prop :=
+  exists left right body,
+    c = left ++ body ++ right /\ index_of (body ++ right) right = Some (length body) /\
+    ((left = [45%N; 45%N] /\ right = NL) \/ (left = [47%N; 42%N] /\ right = [42%N; 47%N])
+     \/ (HashComments o = true /\ left = [35%N] /\ right = NL)).
+
+(** [Gap d g d']: [g] is a sequence of white space, terminated comments and DELIMITER command
+    lines; [d] is the delimiter in force before it, [d'] after it. A DELIMITER line is the keyword
+    (any case), a space, the rest of the line (no newline inside) and its newline — or the end of
+    the input. *)
+Inductive Gap : bytes -> bytes -> bytes -> Prop :=
+| Gap_nil d : Gap d [] d
+| Gap_space d sp g d' : Spaces sp -> Gap d g d' -> Gap d (sp ++ g) d'
+| Gap_comment d c g d' : CommentSeg c -> Gap d g d' -> Gap d (c ++ g) d'
+| Gap_delim d kw arg nl g d0 d' :
+    length kw = 9%nat -> has_prefix_ci kw W_DELIMITER = true ->
+    (exists t, arg = 32%N :: t) -> ~ In 10%N arg ->
+    (nl = NL \/ (nl = [] /\ g = [])) ->
+    delim_of_arg (arg ++ nl) = Ok d0 -> d0 <> [] ->
+    Gap (unescape_delim d0) g d' -> Gap d (kw ++ arg ++ nl ++ g) d'.
+
+(** the bytes a statement was cut from: its text, then white space, then possibly the delimiter. *)
+Definition RawOf (d raw : bytes) (st : Stmt) : Prop :=
+  exists sp dl, raw = Text st ++ sp ++ dl /\ Spaces sp /\ (dl = [] \/ dl = d).
+
+(** [Lossless d off inp ss]: [inp] (which starts at offset [off] of the file, with delimiter [d] in
+    force) is exactly gap, raw statement, gap, ..., gap; every statement's [Pos] is the offset
+    of its raw text. *)
+Inductive Lossless : bytes -> Z -> bytes -> list Stmt -> Prop :=
+| LL_end d off g d' : Gap d g d' -> Lossless d off g []
+| LL_stmt d off g d' raw rest st ss :
+    Gap d g d' -> RawOf d' raw st -> raw <> [] -> Pos st = off + zlen g ->
+    Lossless d' (off + zlen g + zlen raw) rest ss ->
+    Lossless d off (g ++ raw ++ rest) (st :: ss).
+
+(** ** comment *)
+Lemma comment_cases s left right s' :
+  comment s left right = Ok s' -> 0 <= pos s ->
+  adv s s' \/
+  (pos s = zlen left /\ exists body sp,
+     skipn (Z.to_nat (pos s)) (input s) = body ++ right ++ sp ++ input s' /\
+     index_of (body ++ right) right = Some (length body) /\ Spaces sp /\
+     starts_space (input s') = false /\ pos s' = 0 /\ delim s' = delim s /\
+     total s' = total s + zlen body + zlen right + zlen sp).
+Proof.
+  unfold comment. intros H Hp. inv_bind H. rename a into tl.
+  apply slice_from_ok in Ha as [Hb Htl].
+  destruct (index_of tl right) as [i|] eqn:Ei; [|inversion H; left; apply adv_refl].
+  destruct (negb (pos s =? zlen left)) eqn:En.
+  { inversion H. left. apply adv_addPos. pose proof (zlen_nonneg right). lia. }
+  bnorm. right. split; [exact En|].
+  inv_bind H. rename a into c. inv_bind H. rename a into rest. inversion H; subst s'; clear H.
+  apply slice_from_ok in Ha0 as [_ Hrest]. simpl in Hrest.
+  pose proof (index_of_spec _ _ _ Ei) as [_ Hi].
+  pose proof (index_of_app _ _ _ Ei) as Happ.
+  pose proof (index_of_firstn _ _ _ Ei) as Hfirst.
+  assert (rest = skipn (i + length right) tl) as Hrest'.
+  { rewrite Hrest, Htl. rewrite skipn_to_nat_add by (pose proof (zlen_nonneg right); lia).
+    f_equal. unfold zlen. lia. }
+  destruct (trim_left_decomp rest) as (sp & Hsp & Hsp2 & Hsp3).
+  exists (firstn i tl), sp.
+  assert (length (firstn i tl) = i) as Hlb by (rewrite firstn_length; lia).
+  assert (firstn (i + length right) tl = firstn i tl ++ right) as Hbr.
+  { rewrite Happ at 1. rewrite app_assoc. rewrite <- Hlb at 1. rewrite <- app_length, firstn_app_l. reflexivity. }
+  assert (zlen rest = zlen sp + zlen (trim_left_space rest)) as Hz by (rewrite Hsp at 1; apply zlen_app).
+  assert (zlen (firstn i tl) = Z.of_nat i) as Hzb by (unfold zlen; lia).
+  match goal with |- context[skipSpaces (if ?b then _ else _)] => destruct b end; simpl;
+  (repeat split;
+   [ rewrite <- Htl; rewrite Happ at 1; rewrite <- Hrest'; f_equal; f_equal; exact Hsp
+   | rewrite <- Hbr, Hlb; exact Hfirst
+   | exact Hsp2 | exact Hsp3 | lia ]).
+Qed.
+End Spec.
+
+(** ** delimCmd *)
+Lemma unescape_delim_nonnil d : d <> [] -> unescape_delim d <> [].
+Proof.
+  destruct d as [|a [|c t]]; [congruence| |]; intros _; simpl.
+  - destruct a as [|p]; [discriminate|]. repeat (destruct p; try discriminate).
+  - destruct a as [|p]; [discriminate|].
+    repeat (destruct p; try discriminate);
+    destruct (N.eqb c 110); try discriminate; destruct (N.eqb c 114); try discriminate;
+    destruct (N.eqb c 116); discriminate.
+Qed.
+
+Lemma pick_32 s : (do r <- pick s; Ok r) = Ok (Some 32%N) -> 0 <= pos s /\
+  exists t, skipn (Z.to_nat (pos s)) (input s) = 32%N :: t.
+Proof.
+  unfold pick. intros H. inv_bind H. inv_bind Ha. destruct a0 as [r s1]. simpl in Ha. inversion Ha; subst.
+  inversion H; subst. apply next_some in Ha0 as (rest & w & H1 & H2 & H3 & _ & H4).
+  destruct (decode_rune_spec _ _ _ H3 H2) as (_ & Hascii & _).
+  destruct (Hascii ltac:(lia)) as [_ [t Ht]]. apply slice_from_ok in H1 as [_ Hr].
+  split; [lia|]. exists t. congruence.
+Qed.
+
+Local Arguments unescape_delim : simpl never.
+Local Arguments skipn : simpl never.
+Local Arguments firstn : simpl never.
+
+Lemma delimCmd_cases o f s s' :
+  delimCmd o f s = Ok s' -> pos s = 9 ->
+  adv s s' \/
+  exists arg nl d0,
+    skipn 9 (input s) = arg ++ nl ++ input s' /\ (exists t, arg = 32%N :: t) /\ ~ In 10%N arg /\
+    (nl = NL \/ (nl = [] /\ input s' = [])) /\ delim_of_arg (arg ++ nl) = Ok d0 /\ d0 <> [] /\
+    delim s' = unescape_delim d0 /\ pos s' = 0 /\ total s' = total s + zlen arg + zlen nl.
+Proof.
+  unfold delimCmd. intros H Hp. inv_bind H. rename a into r.
+  destruct (negb (rune_is r 32)) eqn:Er; [inversion H; left; apply adv_refl|]. right.
+  bnorm. destruct r as [c|]; [|discriminate]. simpl in Er. apply N.eqb_eq in Er. subst c.
+  destruct (pick_32 s) as [Hp0 [t0 Ht0]]; [rewrite Ha; reflexivity|].
+  inv_bind H. rewrite Ha in Ha0. inversion Ha0; subst a. clear Ha0.
+  inv_bind H. rename a into s1.
+  destruct (to_eol_loop_spec _ _ _ _ Ha0 Hp0 ltac:(exists 32%N; split; [reflexivity|discriminate]))
+    as (seg & S1 & S2 & S3 & S4).
+  inv_bind H. rename a into raw. inv_bind H. rename a into d'. inv_bind H. rename a into s2.
+  inv_bind H. rename a into txt. inv_bind H. destruct a as [st s3]. simpl in H. inversion H; subst s3; clear H.
+  unfold setDelim in Ha3. destruct d' as [|d1 d2] eqn:Ed'; [discriminate|]. inversion Ha3; subst s2; clear Ha3.
+  unfold emit in Ha5. apply bind_ok in Ha5. destruct Ha5 as (rest & Hsl & Ha5).
+  inversion Ha5; subst s' st; clear Ha5. simpl in *.
+  apply slice_from_ok in Hsl as [Hb Hrest]. rewrite Hp in *.
+  destruct S4 as (I1 & I2 & I3 & I4). rewrite I1 in *.
+  assert (raw = seg) as ->.
+  { apply slice_ok in Ha1 as (_ & _ & ->).
+    apply (skipn_firstn_mid _ (firstn 9 (input s)) seg (skipn (Z.to_nat (pos s1)) (input s))).
+    - rewrite <- S1. change (Z.to_nat 9) with 9%nat. symmetry; apply firstn_skipn.
+    - change 9%nat with (Z.to_nat 9). apply zlen_firstn. change (zlen S_DELIMITER) with 9. lia.
+    - change (zlen S_DELIMITER) with 9. lia. }
+  change (Z.to_nat 9) with 9%nat in *.
+  destruct S2 as [(arg & -> & Harg)|[Hseg Hr]].
+  - exists arg, NL, (d1 :: d2). rewrite <- app_assoc in S1. rewrite Hrest.
+    repeat split; auto; try discriminate.
+    + destruct arg as [|a0 arg']; [rewrite Ht0 in S1; simpl in S1; inversion S1|].
+      rewrite Ht0 in S1. simpl in S1. inversion S1. eauto.
+    + rewrite zlen_app in S3. change (zlen NL) with 1. change (zlen [10%N]) with 1 in S3. lia.
+  - exists seg, [], (d1 :: d2). rewrite Hrest, Hr. rewrite Hr, app_nil_r in S1.
+    rewrite !app_nil_r. repeat split; auto; try discriminate.
+    + exists t0. congruence.
+    + change (zlen []) with 0. lia.
+Qed.
+
+(** ** nested block scanners: whatever the nested [stmt] does, the outer scanner only advances *)
+Lemma init_total s0 inp s : init s0 inp = Ok s -> 0 <= total s.
+Proof.
+  unfold init. destruct (directive_delimiter inp); [|intros H; inversion H; simpl; lia].
+  intros H. inv_bind H. destruct (index_of inp NL); [|unfold fail in H; inv_bind H; discriminate].
+  inversion H; subst. simpl. unfold zlen. rewrite skipn_length. lia.
+Qed.
+
+Lemma word_ci_len w s n r : word_ci w s = Some (n, r) -> n = length w.
+Proof. unfold word_ci. destruct (has_prefix_ci s w); [|discriminate]. intros H; inversion H; auto. Qed.
+Lemma re_begin_pos s n : re_begin s = Some n -> (1 <= n)%nat.
+Proof.
+  unfold re_begin. destruct (skip_s s) as [n0 r0]. destruct (word_ci W_BEGIN r0) as [[n1 r1]|] eqn:E; [|discriminate].
+  apply word_ci_len in E. destruct (skip_s1 r1) as [[n2 r2]|]; [|discriminate]. intros H; inversion H.
+  subst. simpl. lia.
+Qed.
+Lemma re_begin_word_pos w s n : re_begin_word w s = Some n -> (1 <= n)%nat.
+Proof.
+  unfold re_begin_word. destruct (skip_s s) as [n0 r0]. destruct (word_ci W_BEGIN r0) as [[n1 r1]|] eqn:E; [|discriminate].
+  apply word_ci_len in E. destruct (skip_s1 r1) as [[n2 r2]|]; [|discriminate].
+  destruct (word_ci w r2) as [[n3 r3]|]; [|discriminate].
+  destruct (skip_s1 r3) as [[n4 r4]|]; [|discriminate]. intros H; inversion H.
+  subst. simpl. lia.
+Qed.
+
+Section IterProofs.
+Variable o : opts.
+Variable nested : scanner -> res (scanner * option Stmt).
+Hypothesis nested_mono : forall b b' r, nested b = Ok (b', r) -> total b <= total b'.
+
+Lemma nfail_ok s p k r : nfail s p k = Ok r -> fst r = s.
+Proof. unfold nfail. intros H. inv_bind H. inversion H. reflexivity. Qed.
+
+Lemma atomic_loop_adv f : forall s body r, 0 <= total body ->
+  atomic_loop nested f s body = Ok r -> adv s (fst r).
+Proof.
+  induction f as [|f IH]; intros s body r Hb H; simpl in H; [discriminate|].
+  destruct (nested body) as [[body' [st|]]|e| |] eqn:En; try discriminate.
+  - pose proof (nested_mono _ _ _ En). destruct (re_end (Text st)).
+    + inversion H; subst; simpl. apply adv_addPos. lia.
+    + eapply IH; [|exact H]. lia.
+  - apply nfail_ok in H. rewrite H. apply adv_refl.
+  - apply nfail_ok in H. rewrite H. apply adv_refl.
+Qed.
+Lemma begin_loop_adv f : forall s group r, 0 <= total group ->
+  begin_loop o nested f s group = Ok r -> adv s (fst r).
+Proof.
+  induction f as [|f IH]; intros s group r Hb H; simpl in H; [discriminate|].
+  destruct (nested group) as [[group' [st|]]|e| |] eqn:En; try discriminate.
+  - pose proof (nested_mono _ _ _ En). destruct (re_end (Text st)).
+    + destruct (_ || _).
+      * inversion H; subst; simpl. apply adv_addPos. lia.
+      * eapply IH; [|exact H]. lia.
+    + destruct (_ && _).
+      * inversion H; subst; simpl. apply adv_addPos. lia.
+      * eapply IH; [|exact H]. lia.
+  - apply nfail_ok in H. rewrite H. apply adv_refl.
+  - apply nfail_ok in H. rewrite H. apply adv_refl.
+Qed.
+
+Lemma skipBeginAtomic_adv f s r : skipBeginAtomic nested f s = Ok r -> adv s (fst r).
+Proof.
+  unfold skipBeginAtomic. intros H. inv_bind H.
+  destruct (re_begin_atomic a) as [n|] eqn:E; [|apply nfail_ok in H; rewrite H; apply adv_refl].
+  apply re_begin_word_pos in E. inv_bind H.
+  assert (adv s (addPos s (Z.of_nat n - 1))) as A1 by (apply adv_addPos; lia).
+  destruct (init (new_scanner false) a0) as [body|e| |] eqn:Ei; try discriminate.
+  - eapply adv_trans; [exact A1|]. eapply atomic_loop_adv; [|exact H]. eapply init_total; exact Ei.
+  - inversion H; subst; exact A1.
+Qed.
+Lemma skipBegin_adv f s r : skipBegin o nested f s = Ok r -> adv s (fst r).
+Proof.
+  unfold skipBegin. intros H. inv_bind H.
+  destruct (re_begin a) as [n|] eqn:E; [|apply nfail_ok in H; rewrite H; apply adv_refl].
+  apply re_begin_pos in E. inv_bind H.
+  assert (adv s (addPos s (Z.of_nat n - 1))) as A1 by (apply adv_addPos; lia).
+  destruct (init (new_scanner (BeginEndTerminator o)) a0) as [body|e| |] eqn:Ei; try discriminate.
+  - eapply adv_trans; [exact A1|]. eapply begin_loop_adv; [|exact H]. eapply init_total; exact Ei.
+  - inversion H; subst; exact A1.
+Qed.
+
+Lemma after_block_spec r depth opos step s0 :
+  after_block r depth opos = Ok step -> (forall x, r = Ok x -> adv s0 (fst x)) ->
+  match step with
+  | Continue s1 _ _ => adv s0 s1
+  | Break s1 text => adv s0 s1 /\ text = firstn (Z.to_nat (pos s1)) (input s1)
+  | RetEOF _ => False
+  end.
+Proof.
+  unfold after_block. intros H Hr. inv_bind H. destruct a as [s1 [e|]].
+  - inversion H; subst. apply (Hr _ eq_refl).
+  - inv_bind H. inversion H; subst. split; [apply (Hr _ eq_refl)|].
+    apply slice_to_ok in Ha0 as [_ ->]. reflexivity.
+Qed.
+End IterProofs.
